@@ -101,11 +101,12 @@ hc_prop("C12",
 hc_prop("C13",
     lambda tier: [hc("rate", 2500, 80000, tier, "C13"),
                   hc("faulty", 600, 20000, tier, "C13"),
-                  hc("ideal", 300, 10000, tier, "C13")],
-    GEN + "rate family: ceilings 1472 B/s..2^32-1 on either side, backlogs, 0..20 application flushes per step, pauses then bursts. non-trivial: >= 100 frames on the wire.",
+                  hc("ideal", 300, 10000, tier, "C13"),
+                  dict(family="ack-storm", n=T(tier, 100, 4000), params={"batch": 4})],
+    GEN + "rate family: ceilings 1472 B/s..2^32-1 on either side, backlogs, 0..20 application flushes per step, pauses then bursts. ack-storm: the harness is the peer of one real HalfConnection (ceiling 20 kB/s..500 kB/s, modest own traffic, so it holds burst credit): it acknowledges the victim's frames honestly after a simulated round trip of 20..400 ms and every 1..4 s hands it 170..3000 empty data frames with ids 33 apart between two flushes, so that up to 4096 acknowledgement groups (25 ack frames) are owed at once. non-trivial: >= 100 frames on the wire (ack-storm: a flush owing more than one ack frame with an RTT estimate present).",
     "Exact byte counting at FrameSink::send on virtual time; every interval within a 600-event look-back plus a running-minimum form for long intervals, against B*(dt+R)+1472 (R = larger of the RTT estimates after the last two steps).",
     "interval byte-count oracle on the virtual-time wire trace",
-    dict(quick=800, thorough=20000), require=["rate_events"])
+    dict(quick=800, thorough=20000), require=["rate_events", "flushes_owing_more_than_one_ack_frame"])
 
 hc_prop("C15",
     lambda tier: [hc("ack-twin", 1200, 60000, tier, "C15")],
@@ -126,11 +127,12 @@ hc_prop("C20",
 hc_prop("C04",
     lambda tier: [dict(family="frag-len", n=T(tier, 5795 + 400, 5795 + 30000), params={"prop": "C04"}, scalable=False),
                   hc("frag", 1500, 60000, tier, "C04", frag_packets=T(tier, 40, 120)),
-                  hc("frag-twin", 1000, 40000, tier, "C04")],
-    GEN + "frag-len: ONE packet per scenario, every length 0..=5794 exhaustively (then sampled lengths up to 1 MB), fragments duplicated / reordered / partly lost and resent. frag: multi-fragment heavy mixes with rates that cut packets across flushes. frag-twin: same scenario twice, second run with datagrams appended whose header disagrees with the genuine fragments of the same packet (forward link ideal so the first fragment seen is genuine). non-trivial: multi-fragment packet delivered after >= 1 duplicate / delayed / lost fragment (frag-len: delivered), twin: >= 1 conflicting datagram injected.",
-    "Wire monitor: no emitted frame > 1472 bytes; every datagram equals the right slice of its packet; byte-exact delivery (C01 oracle); single packets delivered exactly once; twin-run equality of deliveries under conflicting fragments. Length sweep is exhaustive for 0..=4*1448+2, everything else sampled.",
+                  hc("frag-twin", 1000, 40000, tier, "C04"),
+                  dict(family="frag-rx", n=T(tier, 200, 8000), params={"batch": 10, "packets": T(tier, 60, 120)})],
+    GEN + "frag-len: ONE packet per scenario, every length 0..=5794 exhaustively (then sampled lengths up to 1 MB), fragments duplicated / reordered / partly lost and resent. frag: multi-fragment heavy mixes with rates that cut packets across flushes. frag-twin: same scenario twice, second run with datagrams appended whose header disagrees with the genuine fragments of the same packet (forward link ideal so the first fragment seen is genuine). non-trivial: multi-fragment packet delivered after >= 1 duplicate / delayed / lost fragment (frag-len: delivered), twin: >= 1 conflicting datagram injected. frag-rx: the harness is the sender: its own packets, cut with the reference codec, are handed to a real receiving HalfConnection one fragment per frame in any order (shuffled / reversed / in order, 1..64 packets interleaved, windows 4..4096, ids wrapping 2^20), repeated also after delivery and behind the window, with forged fragments for packets under assembly whose header disagrees with the first genuine one (fewer / more fragments, other channel, other leads; full-size or short) aimed at slots not yet received; non-trivial = a packet that had forged fragments aimed at a missing slot was delivered.",
+    "Wire monitor: no emitted frame > 1472 bytes; every datagram equals the right slice of its packet; byte-exact delivery (C01 oracle); single packets delivered exactly once; twin-run equality of deliveries under conflicting fragments; synthetic-sender sessions: byte-identical, at-most-once, per-channel-ordered delivery and exactly-once for the ordered chain under arbitrary fragment arrival orders and forged disagreeing fragments. Length sweep is exhaustive for 0..=4*1448+2, everything else sampled.",
     "wire-slicing monitor + exhaustive length sweep + twin-run differential",
-    dict(quick=1500, thorough=20000), require=["single_packet_multifrag", "conflicting_datagrams_injected", "delivered_multifrag"],
+    dict(quick=1500, thorough=20000), require=["single_packet_multifrag", "conflicting_datagrams_injected", "delivered_multifrag", "forged_into_slot_not_yet_received", "forged_fewer_fragments", "repeated_after_delivery"],
     also=["C01:delivered-altered", "C01:delivered-unknown", "C01:delivered-twice"])
 
 hc_prop("C06",
@@ -275,17 +277,17 @@ ep_prop("C09",
 
 ep_prop("C10",
     lambda tier: [ep("timers", 3000, 100000, tier, "C10")],
-    "timers: one client and a server with active timeouts 1..120 s, keepalive on/off with intervals 0.5..30 s, SYN / SYN-ACK / ACK lost 0..11 times (handshakes lasting 0..22 s), step cadences 1 ms..1 s, busy then idle phases, a total or one-way blackout from a random moment. non-trivial: a timeout fired, or the connection stayed idle for >= 3 timeouts.",
-    "Reference timer model from the relayed frames and step times: Error(Timeout) on an established connection only at a step where the last read of a Data/Ack/Sync frame (or the establishing handshake frame) is >= active_timeout_ms ago, and at the first such step; handshake attempts end with Timeout after exactly 1+10 SYNs and not before 22 s; server-side pending entries after 11 SYN-ACKs; SYN resends never closer than 2 s; with keepalive on (both directions inside the documented max(interval, 2 s, RTO) pace) an idle connection on a loss-free network never times out.",
+    "timers: one client and a server with active timeouts 1..120 s, keepalive on/off with intervals 0.5..30 s, SYN / SYN-ACK / ACK lost 0..11 times (handshakes lasting 0..22 s), step cadences 1 ms..1 s, busy then idle phases, a total or one-way blackout from a random moment; in 40 % of scenarios one side calls disconnect / disconnect_now 0 ms..10 s after its Connect event (also while a handshake resend timer may still be pending) and the first 0..11 or all of its Disconnect requests are lost. non-trivial: a timeout fired, a disconnect attempt was judged, or the connection stayed idle for >= 3 timeouts.",
+    "Reference timer model from the relayed frames and step times: Error(Timeout) on an established connection only at a step where the last read of a Data/Ack/Sync frame (or the establishing handshake frame) is >= active_timeout_ms ago, and at the first such step; handshake attempts end with Timeout after exactly 1+10 SYNs and not before 22 s; server-side pending entries after 11 SYN-ACKs; SYN resends never closer than 2 s; disconnect attempts: requests never closer than 2 s, at most 1+10 of them, Error(Timeout) only after all 11 and not before 22 s after the first, nor later than that plus 12 steps; with keepalive on (both directions inside the documented max(interval, 2 s, RTO) pace) an idle connection on a loss-free network never times out.",
     "reference timer model over recorded deliveries and step times",
-    dict(quick=1500, thorough=30000), require=["c10_timeouts_checked", "c10_handshake_timeouts_checked", "c10_keepalive_cases_checked"])
+    dict(quick=1500, thorough=30000), require=["c10_timeouts_checked", "c10_handshake_timeouts_checked", "c10_keepalive_cases_checked", "c10_disconnect_attempts_checked", "c10_disconnect_timeouts_checked"])
 
 ep_prop("C17",
     lambda tier: [ep("limits", 2500, 80000, tier, "C17")],
-    "limits: max_active 1..8, max_total up to 16, 1..40 clients arriving in bursts, staggered or in waves; all first ACKs lost (many SYNs before any ACK), lossy handshakes; connections ended by disconnect from either side, Client drop, Server::drop or silent death (timeout); finally everything ends and, 50 s later, a fresh client must connect. non-trivial: more clients than max_active and >= 1 connection ended by the script.",
-    "Counters after every server call: connections between Connect and their terminal event / the server's own Disconnect <= max_active_connections; addresses for which Server::client() is Some <= max_total_connections; ServerFull refusals are mirrored by server error events when enabled; capacity is available again after everything ended.",
+    "limits: max_active 1..8, max_total up to 16, 1..40 clients arriving in bursts, staggered or in waves; all first ACKs lost (many SYNs before any ACK), lossy handshakes; connections ended by disconnect from either side, Client drop, Server::drop or silent death (timeout); clients that disconnected come back from the same address 0.1..9 s later and stay; a late wave of max_total+2 handshakes from fresh addresses whose ACKs are all lost arrives 26..48 s in (after the server's 20 s memory of ended connections has expired); finally everything ends and, 50 s later, a fresh client must connect. non-trivial: more clients than max_active and >= 1 connection ended by the script.",
+    "Counters after every server call: connections between Connect and their terminal event / the server's own Disconnect <= max_active_connections; addresses for which Server::client() is Some <= max_total_connections; ServerFull refusals are mirrored by server error events when enabled; capacity is available again after everything ended. Offline admission check from wire + events only (independent of the server's own table): at every newly admitted handshake (fresh SYN-ACK nonce pair) the established connections plus the handshakes provably in progress (same SYN-ACK repeated later / Connect later) number < max_total_connections.",
     "online counters over the server's event stream and public lookup",
-    dict(quick=1200, thorough=30000), require=["c17_refused_with_serverfull", "c17_capacity_reuse_checked", "c17_connections_ended_by_script"])
+    dict(quick=1200, thorough=30000), require=["c17_refused_with_serverfull", "c17_capacity_reuse_checked", "c17_connections_ended_by_script", "c17_admissions_checked", "c17_reconnects_from_same_address", "c17_late_wave_handshakes"])
 
 ep_prop("C18",
     lambda tier: [ep("amplify", 3000, 100000, tier, "C18"),
